@@ -211,10 +211,13 @@ static void add_attr(const char *attr_name, enum xcm_attr_type type,
 	len > sizeof(cfm->attrs[0].any_value))
 	return;
 
+    /* ...and so are those beyond the reply's capacity */
+    if (cfm->attrs_len == CTL_PROTO_MAX_ATTRS)
+	return;
+
     struct ctl_proto_attr *attr = &cfm->attrs[cfm->attrs_len];
 
     cfm->attrs_len++;
-    ut_assert(cfm->attrs_len < CTL_PROTO_MAX_ATTRS);
 
     strcpy(attr->name, attr_name);
     attr->value_type = type;
